@@ -58,6 +58,7 @@ func jobsFor(prop, tier string) []Job {
 			mk("c02-n3-1cycle", params("N", 3, "CYCLES", 1, "KEYS", 2, "BLKMAX", 0), false),
 			mk("c02-n3-1cycle-drain", params("N", 3, "CYCLES", 1, "KEYS", 2, "K0", 1, "DRAIN", 1, "IBMAX", 0), true),
 			mk("c02-n2-2cycles", params("N", 2, "CYCLES", 2, "KEYS", 2, "K0", 3, "BLKMAX", 0), true),
+			mk("c02-n3-close-with-pending-flushes", params("N", 3, "CYCLES", 1, "KEYS", 2, "K0", 0, "STALL", 1, "IBMIN", 2, "IBMAX", 2, "BLKMAX", 0, "KINDS", 2), false),
 			func() Job {
 				j := mk("c02-manyfiles", params("N", 12, "L0T", 12), false)
 				j.Fn = "VH_C02_ManyFiles"
@@ -99,12 +100,20 @@ func jobsFor(prop, tier string) []Job {
 				return j
 			}(),
 		}
-		js = append(js, mk("crash-w1-2crashes", params("W", 1, "MEMTHR", 60), 2, false, false, 0))
+		js = append(js, mk("crash-w1-2crashes", params("W", 1, "MEMTHR", 60), 2, false, false, 0),
+			mk("crash-w3-straddle", params("W", 3, "MEMTHR", 44), 1, tears, false, 0))
 		if thorough {
 			js = append(js, mk("crash-w2", params("W", 2), 1, tears, false, 0),
 				mk("crash-w0-2crashes", params("W", 0), 2, false, false, 0),
 				mk("crash-w0-nodrain-eager", params("W", 0, "DRAIN", 0, "IB", 0), 1, tears, true, 0),
 				mk("crash-w1-sched1", params("W", 1, "MEMTHR", 60, "DRAIN", 0), 1, tears, false, 1))
+		}
+		{
+			// Close with flushes pending (flusher slower than the writers): schedules and crash
+			// points explored inside Close
+			j := mk("crash-w4-close-with-pending-flushes", params("W", 4, "DRAIN", 0, "IB", 4, "FINALDRAIN", 0, "STALL", 1, "ZONE", 1, "POSTN", 1), 1, tears, false, 1)
+			j.ZoneOnly = true
+			js = append(js, j)
 		}
 	case "C05", "C06", "C07", "C08":
 		mk := func(name string, p map[string]int) Job {
